@@ -98,3 +98,67 @@ impl MmapOptions {
         Ok(MmapMut { ptr: f.buf, len: f.len, file: file.id })
     }
 }
+
+// ------------------------------------------------------------------------------------------
+// hooks called from rawdb under cfg(kani)
+// ------------------------------------------------------------------------------------------
+
+/// Largest write that is really copied in contract mode (bytes).
+pub const COPY_BOUND: usize = 16;
+
+/// `write_to_mmap` hook. Ghost mode (no backing bytes): the write becomes a ghost `Write` event
+/// (for the regions file the decoded slot fields are attached).  Contract mode: bounded
+/// element-wise copy + event.  Always handles the write (returns true).
+pub fn ghost_write(mmap: &MmapMut, offset: usize, data: &[u8]) -> bool {
+    let n = data.len();
+    if mmap.file == crate::fs::REGIONS && n >= 32 {
+        // metadata slot: remember what was written (start, len, reserved, id_len)
+        let rd = |o: usize| -> u64 {
+            let b: [u8; 8] = [data[o], data[o + 1], data[o + 2], data[o + 3], data[o + 4], data[o + 5], data[o + 6], data[o + 7]];
+            u64::from_le_bytes(b)
+        };
+        ghost::log_x(K::Write, mmap.file, offset, n, [rd(0), rd(8), rd(16), rd(24) << 8 | data[32] as u64]);
+    } else {
+        ghost::log(K::Write, mmap.file, offset, n);
+    }
+    if !mmap.ptr.is_null() {
+        assert!(n <= COPY_BOUND, "VERIF: bound exceeded: contract-mode write size");
+        let mut i = 0;
+        while i < COPY_BOUND {
+            if i < n {
+                unsafe { *mmap.ptr.add(offset + i) = data[i] };
+            }
+            i += 1;
+        }
+    }
+    true
+}
+
+/// `Database::copy` hook.
+pub fn ghost_copy(mmap: &MmapMut, src: usize, dst: usize, len: usize) -> bool {
+    assert!(src + len <= mmap.len && dst + len <= mmap.len, "copy outside the map");
+    ghost::log(K::Copy, src, dst, len);
+    if !mmap.ptr.is_null() {
+        assert!(len <= COPY_BOUND, "VERIF: bound exceeded: contract-mode copy size");
+        let mut i = 0;
+        while i < COPY_BOUND {
+            if i < len {
+                unsafe { *mmap.ptr.add(dst + i) = *mmap.ptr.add(src + i) };
+            }
+            i += 1;
+        }
+    }
+    true
+}
+
+/// `RegionMetadata::write_if_dirty` hook: the whole-slot write as one ghost event with the decoded
+/// fields (start, len, reserved, id_len<<8|first id byte).  Materialising the 4096-byte encoding
+/// with symbolic fields costs ~7 M SAT variables per operation harness (array constraints); the
+/// byte-level codec is decided separately (C17 round-trip harnesses).
+pub fn ghost_slot(mmap: &MmapMut, index: usize, f: [u64; 3], id: &[u8]) -> bool {
+    let off = index * 4096;
+    assert!(off + 4096 <= mmap.len, "slot write outside the regions map");
+    let id0 = if id.is_empty() { 0 } else { id[0] };
+    ghost::log_x(K::Write, mmap.file, off, 4096, [f[0], f[1], f[2], (id.len() as u64) << 8 | id0 as u64]);
+    true
+}
